@@ -634,7 +634,7 @@ func (g *G) DefPure() Def {
 	s := g.newScope(ps, false)
 	var src string
 	var feats []string
-	switch t := g.T.Draw(7); {
+	switch t := g.T.Draw(8); {
 	case t == 1 && ar >= 1: // bounded recursion
 		feats = append(feats, "def.recursive")
 		src = fmt.Sprintf("%s = (%s) -> if %s <= 0 {\n%s\n} else {\n%s + %s(%s - 1%s)\n}", name, strings.Join(ps, ", "), ps[0], g.lit(), g.atom(s), name, ps[0], restArgs(ps))
@@ -691,6 +691,16 @@ func (g *G) DefPure() Def {
 			lines = append(lines, "s + "+PadName(w/2))
 		}
 		src = name + " = (" + strings.Join(ps, ", ") + ") -> " + block(lines)
+	case t == 7 && !g.NoClosures: // returns a closure whose loop iterates directly over a captured variable
+		feats = append(feats, "def.returns_looping_closure")
+		k := s.fresh()
+		s.consts = append(s.consts, k)
+		src = name + " = (" + strings.Join(ps, ", ") + ") -> " + block([]string{k + " = " + g.IntExpr(s, 1) + " % 5 + 1",
+			"(x) -> {\ns = 0\nfor i <- fromto(0, " + k + ") {\ns = s + x + i\n}\ns * 10 + " + k + "\n}"})
+		d := Def{Name: name, Src: src, Kind: Maker, Arity: ar, Feat: feats}
+		g.Defs = append(g.Defs, d)
+		g.feat("def.returns_looping_closure")
+		return d
 	case t == 6 && !g.NoClosures: // returns a closure that a generator yielded: its captured frame lives in an iterator context
 		feats = append(feats, "def.returns_yielded_closure")
 		gm := "gy" + letters(g.nGn)
